@@ -145,6 +145,7 @@ pub struct Core {
     timer_seq: u64,
     timed_out: Vec<TaskId>,
     clock_task: Option<TaskId>,
+    clock_spawning: bool,
     shutdown: bool,
     // tasks
     pub names: Vec<String>,
@@ -177,6 +178,7 @@ impl Core {
             timer_seq: 0,
             timed_out: vec![],
             clock_task: None,
+            clock_spawning: false,
             shutdown: false,
             names: vec![],
             pending: vec![],
@@ -338,6 +340,32 @@ impl Rt for ShuttleRt {
     fn block(&self, timeout: Option<Duration>) -> bool {
         let me = me();
         if let Some(d) = timeout {
+            // the clock task is created when the first timer is
+            let spawn_clock = with_core(|c| {
+                if c.clock_task.is_none() && !c.clock_spawning {
+                    c.clock_spawning = true;
+                    true
+                } else {
+                    false
+                }
+            });
+            if spawn_clock {
+                let h = shuttle::thread::Builder::new()
+                    .name("clock".into())
+                    .stack_size(STACK)
+                    .spawn(|| {
+                        clock_task();
+                        task_exit();
+                    })
+                    .unwrap();
+                let clock_id: usize = h.thread().id().into();
+                with_core(|c| {
+                    c.ensure_task(clock_id);
+                    c.names[clock_id] = "clock".into();
+                    c.clock_task = Some(clock_id);
+                    c.handles.insert(clock_id, h);
+                });
+            }
             let clock = with_core(|c| {
                 c.timer_seq += 1;
                 let seq = c.timer_seq;
@@ -729,18 +757,6 @@ fn main_task() {
         c.main_task = Some(main);
         c.body.clone().unwrap()
     });
-    // the clock task
-    let h = shuttle::thread::Builder::new()
-        .name("clock".into())
-        .stack_size(STACK)
-        .spawn(clock_task)
-        .unwrap();
-    let clock_id: usize = h.thread().id().into();
-    with_core(|c| {
-        c.ensure_task(clock_id);
-        c.names[clock_id] = "clock".into();
-        c.clock_task = Some(clock_id);
-    });
     let r = std::panic::catch_unwind(std::panic::AssertUnwindSafe(|| body()));
     if let Err(p) = r {
         let t = panic_text(&p);
@@ -759,9 +775,23 @@ fn main_task() {
         ExecutionState::with(|s| s.current_mut().block(false));
         sthread::switch();
     }
-    with_core(|c| c.shutdown = true);
-    RT.unblock(clock_id);
-    let _ = h.join();
+    // stop the clock task, if one was ever needed
+    let clock = with_core(|c| {
+        c.shutdown = true;
+        c.clock_task
+    });
+    if let Some(clock_id) = clock {
+        RT.unblock(clock_id);
+        loop {
+            let done = with_core(|c| c.finished[clock_id]);
+            if done {
+                break;
+            }
+            with_core(|c| c.pending[main] = Op::Global);
+            ExecutionState::with(|s| s.current_mut().block(false));
+            sthread::switch();
+        }
+    }
     with_core(|c| c.handles.clear());
     verif::install(None);
 }
